@@ -20,10 +20,12 @@
 (*   Dev_NoCreate        nobody calls RunLifecycleLock.create: there is no row, begin_release never succeeds        *)
 (*   Dev_CheckThenSend   the sender's check and its send are two steps                                              *)
 (*   Dev_RelUnconditional TickIdleRelease completes the run whatever the run is doing                               *)
+(*   Dev_PendingTickNotLogged  _do_resume folds the sender's tick into the rebuilt state without writing it to the  *)
+(*                        tick log; the log then holds a step result without its event and cannot be replayed again  *)
 (******************************************************************************)
 EXTENDS Naturals, Sequences, FiniteSets, TLC
 
-CONSTANTS Senders, NEv, Dev_NoCreate, Dev_CheckThenSend, Dev_RelUnconditional
+CONSTANTS Senders, NEv, Dev_NoCreate, Dev_CheckThenSend, Dev_RelUnconditional, Dev_PendingTickNotLogged
 
 VARIABLES row,        \* "none" | "active" | "releasing" | "released"
           loops,      \* live control loops of the run
@@ -31,31 +33,36 @@ VARIABLES row,        \* "none" | "active" | "releasing" | "released"
           work,       \* events received and not yet answered (queued or running in a step)
           carry,      \* received-but-unanswered events of a released run (they are in the persisted ticks)
           announced, timer, rel, idleMark, spc,
-          answered, stranded, releasedBusy, finished
+          answered, stranded, releasedBusy, finished,
+          logOK,      \* the persisted tick log can be replayed
+          resumeFailed
 vars == <<row, loops, mailbox, work, carry, announced, timer, rel, idleMark, spc, answered, stranded, releasedBusy,
-          finished>>
+          finished, logOK, resumeFailed>>
 
-Init == /\ row = (IF Dev_NoCreate THEN "none" ELSE "active")
+InitWith(r) ==
+        /\ row = r
         /\ loops = 1 /\ mailbox = <<>> /\ work = {} /\ carry = {}
         /\ announced = FALSE /\ timer = "off" /\ rel = "none" /\ idleMark = FALSE
         /\ spc = [s \in Senders |-> "new"]
         /\ answered = {} /\ stranded = {} /\ releasedBusy = FALSE /\ finished = FALSE
+        /\ logOK = TRUE /\ resumeFailed = FALSE
+Init == InitWith(IF Dev_NoCreate THEN "none" ELSE "active")
 
 EventsIn(q) == {q[i] : i \in 1..Len(q)} \ {"rel"}
 
 Announce ==
   /\ loops = 1 /\ work = {} /\ ~announced /\ ~finished
   /\ announced' = TRUE /\ timer' = "armed"
-  /\ UNCHANGED <<row, loops, mailbox, work, carry, rel, idleMark, spc, answered, stranded, releasedBusy, finished>>
+  /\ UNCHANGED <<row, loops, mailbox, work, carry, rel, idleMark, spc, answered, stranded, releasedBusy, finished, logOK, resumeFailed>>
 
 TimerBegin ==
   /\ timer = "armed" /\ timer' = "off"
   /\ IF row = "active" THEN row' = "releasing" /\ rel' = "begun" ELSE UNCHANGED <<row, rel>>
-  /\ UNCHANGED <<loops, mailbox, work, carry, announced, idleMark, spc, answered, stranded, releasedBusy, finished>>
+  /\ UNCHANGED <<loops, mailbox, work, carry, announced, idleMark, spc, answered, stranded, releasedBusy, finished, logOK, resumeFailed>>
 
 RelSend ==
   /\ rel = "begun" /\ rel' = "sent" /\ mailbox' = Append(mailbox, "rel")
-  /\ UNCHANGED <<row, loops, work, carry, announced, timer, idleMark, spc, answered, stranded, releasedBusy, finished>>
+  /\ UNCHANGED <<row, loops, work, carry, announced, timer, idleMark, spc, answered, stranded, releasedBusy, finished, logOK, resumeFailed>>
 
 Recv ==
   /\ loops = 1 /\ mailbox # <<>>
@@ -72,7 +79,7 @@ Recv ==
        ELSE                                              \* intended design: a busy run declines the release
           /\ mailbox' = Tail(mailbox) /\ row' = "active" /\ rel' = "none"
           /\ UNCHANGED <<loops, work, carry, stranded, releasedBusy, announced>>
-  /\ UNCHANGED <<idleMark, spc, answered, finished>>
+  /\ UNCHANGED <<idleMark, spc, answered, finished, logOK, resumeFailed>>
 
 StepDone(e) ==
   /\ loops = 1 /\ e \in work
@@ -80,16 +87,16 @@ StepDone(e) ==
   /\ IF Cardinality(answered \cup {e}) >= NEv
        THEN finished' = TRUE /\ loops' = 0 /\ stranded' = stranded \cup EventsIn(mailbox) /\ mailbox' = <<>>
        ELSE UNCHANGED <<finished, loops, stranded, mailbox>>
-  /\ UNCHANGED <<row, carry, announced, timer, rel, idleMark, spc, releasedBusy>>
+  /\ UNCHANGED <<row, carry, announced, timer, rel, idleMark, spc, releasedBusy, logOK, resumeFailed>>
 
 RelComplete ==
   /\ rel = "sent" /\ loops = 0
   /\ rel' = "marking" /\ row' = (IF row = "releasing" THEN "released" ELSE row)
-  /\ UNCHANGED <<loops, mailbox, work, carry, announced, timer, idleMark, spc, answered, stranded, releasedBusy, finished>>
+  /\ UNCHANGED <<loops, mailbox, work, carry, announced, timer, idleMark, spc, answered, stranded, releasedBusy, finished, logOK, resumeFailed>>
 
 Mark ==
   /\ rel = "marking" /\ rel' = "none" /\ idleMark' = TRUE
-  /\ UNCHANGED <<row, loops, mailbox, work, carry, announced, timer, spc, answered, stranded, releasedBusy, finished>>
+  /\ UNCHANGED <<row, loops, mailbox, work, carry, announced, timer, spc, answered, stranded, releasedBusy, finished, logOK, resumeFailed>>
 
 \* inner send_event of a sender that was told "send normally"
 Deliver(s) ==
@@ -105,24 +112,32 @@ Check(s) ==
         /\ row' = "active" /\ spc' = [spc EXCEPT ![s] = "resuming"] /\ mailbox' = mailbox
      ELSE
         /\ spc' = [spc EXCEPT ![s] = "wait"] /\ UNCHANGED <<row, mailbox>>
-  /\ UNCHANGED <<loops, work, carry, announced, timer, rel, idleMark, answered, stranded, releasedBusy, finished>>
+  /\ UNCHANGED <<loops, work, carry, announced, timer, rel, idleMark, answered, stranded, releasedBusy, finished, logOK, resumeFailed>>
 
 SendEv(s) ==
   /\ spc[s] = "window" /\ Deliver(s)
-  /\ UNCHANGED <<row, loops, work, carry, announced, timer, rel, idleMark, answered, stranded, releasedBusy, finished>>
+  /\ UNCHANGED <<row, loops, work, carry, announced, timer, rel, idleMark, answered, stranded, releasedBusy, finished, logOK, resumeFailed>>
 
 Resume(s) ==
-  /\ spc[s] = "resuming" /\ loops = 0
+  /\ spc[s] = "resuming" /\ loops = 0 /\ logOK
+  /\ logOK' = ~Dev_PendingTickNotLogged /\ UNCHANGED resumeFailed
   /\ loops' = loops + 1 /\ work' = carry \cup {s} /\ carry' = {} /\ mailbox' = <<>>
   /\ idleMark' = FALSE /\ announced' = FALSE /\ timer' = "off"
   /\ spc' = [spc EXCEPT ![s] = "done"]
   /\ UNCHANGED <<row, rel, answered, stranded, releasedBusy, finished>>
 
+\* rebuild_state_from_ticks raises: the owner's send_event fails, the run stays unloaded (row already 'active')
+ResumeFail(s) ==
+  /\ spc[s] = "resuming" /\ loops = 0 /\ ~logOK
+  /\ spc' = [spc EXCEPT ![s] = "failed"] /\ resumeFailed' = TRUE
+  /\ UNCHANGED <<row, loops, mailbox, work, carry, announced, timer, rel, idleMark, answered, stranded, releasedBusy,
+                 finished, logOK>>
+
 Next == Announce \/ TimerBegin \/ RelSend \/ Recv \/ RelComplete \/ Mark
-        \/ (\E s \in Senders : Check(s) \/ SendEv(s) \/ Resume(s) \/ StepDone(s))
+        \/ (\E s \in Senders : Check(s) \/ SendEv(s) \/ Resume(s) \/ ResumeFail(s) \/ StepDone(s))
 Spec == Init /\ [][Next]_vars
 Internal == Announce \/ TimerBegin \/ RelSend \/ Recv \/ RelComplete \/ Mark
-            \/ (\E s \in Senders : SendEv(s) \/ Resume(s) \/ StepDone(s))
+            \/ (\E s \in Senders : SendEv(s) \/ Resume(s) \/ ResumeFail(s) \/ StepDone(s))
 FairSpec == Spec /\ WF_vars(Internal) /\ \A s \in Senders : WF_vars(spc[s] = "wait" /\ Check(s))
 
 ----------------------------------------------------------------------------
@@ -140,6 +155,8 @@ Live_Released == (SendersQuiet /\ ~finished /\ work = {} /\ loops = 1)
                    ~> ((row = "released" /\ idleMark /\ loops = 0) \/ ~SendersQuiet \/ finished)
 \* the next send reloads the run and it continues: a sender never hangs
 Live_SenderEnds == \A s \in Senders : (spc[s] \in {"window", "resuming", "wait"}) ~> (spc[s] \in {"done", "failed"})
+\* the next send reloads the run (the reload itself never fails)
+Inv_ResumeSucceeds == ~resumeFailed
 Inv_MarkedOnlyReleased == (idleMark /\ rel = "none") => (row \in {"released"} \/ loops = 0 \/ \E s \in Senders : spc[s] = "resuming")
 TypeOK == loops \in 0..2 /\ row \in {"none", "active", "releasing", "released"}
 =============================================================================
